@@ -44,6 +44,8 @@ type Contract struct {
 	Preserves   []string          // array-name prefixes that a call to this function leaves unchanged even though its effect is "everything"
 	SortedBy    []string          // closure passed to sort.Slice: captured slice name [, string field]: less(i,j) <=> key(i) < key(j)
 	SortedByTags []string
+	Functional  bool              // calls (including recursive ones) are an uninterpreted function of the argument values
+	PureCallbacks map[string]bool // function-typed parameters assumed pure: calls are uninterpreted functions of their arguments
 	NoWrite     []*Clause         // struct types none of whose fields the body may store to (unless the object is its own allocation)
 	NoTypeInv   bool              // the method neither needs nor re-establishes the receiver's type invariant (String(), ...)
 	NilableRecv bool              // the method tolerates a nil receiver (no call-site obligation, no entry assumption)
@@ -286,6 +288,9 @@ func (db *ContractDB) load(path string) error {
 			need()
 			cur.SortedBy = strings.Fields(rest)
 			cur.SortedByTags = tags
+		case "functional":
+			need()
+			cur.Functional = true
 		case "nowrite":
 			need()
 			cur.NoWrite = append(cur.NoWrite, &Clause{Tags: tags, Src: rest, File: path, Line: ln})
@@ -324,11 +329,19 @@ func (db *ContractDB) load(path string) error {
 			name, tail, _ := strings.Cut(rest, " ")
 			k, ex, _ := strings.Cut(strings.TrimSpace(tail), " ")
 			k, tags = splitTags(k)
+			if k == "pure" {
+				ex = "true"
+			}
 			switch k {
 			case "ensures":
 				cur.Callback[name] = append(cur.Callback[name], parse(ex))
 			case "requires":
 				cur.CallbackPre[name] = append(cur.CallbackPre[name], parse(ex))
+			case "pure":
+				if cur.PureCallbacks == nil {
+					cur.PureCallbacks = map[string]bool{}
+				}
+				cur.PureCallbacks[name] = true
 			case "preserves":
 				if cur.CallbackPreserves == nil {
 					cur.CallbackPreserves = map[string][]string{}
@@ -422,6 +435,7 @@ type (
 	EIdent  struct{ Name string }
 	ESel    struct{ X Expr; Name string }
 	EIndex  struct{ X, I Expr }
+	ESlice  struct{ X, Lo, Hi Expr }
 	ECall   struct{ Fn string; Args []Expr }
 	EUnary  struct{ Op string; X Expr }
 	EBinary struct{ Op string; L, R Expr }
@@ -620,7 +634,27 @@ func (p *parser) postfix() Expr {
 			e = &ESel{e, p.next().s}
 		case p.isOp("["):
 			p.next()
+			if p.isOp(":") {
+				p.next()
+				var hi Expr
+				if !p.isOp("]") {
+					hi = p.impl()
+				}
+				p.expect("]")
+				e = &ESlice{e, nil, hi}
+				continue
+			}
 			i := p.impl()
+			if p.isOp(":") {
+				p.next()
+				var hi Expr
+				if !p.isOp("]") {
+					hi = p.impl()
+				}
+				p.expect("]")
+				e = &ESlice{e, i, hi}
+				continue
+			}
 			p.expect("]")
 			e = &EIndex{e, i}
 		default:
